@@ -939,6 +939,7 @@ func ruleUP4AppKey(w *World, r *Report, prop, rule string) {
 		"downlink": {"appIP": "appFilter.srcIP", "appL4Port": "appFilter.srcPortRange"},
 		"":         {"appProto": "appFilter.proto"},
 	}
+	access, core := w.ConstInt(prop, pfcpPkg, "access"), w.ConstInt(prop, pfcpPkg, "core")
 	n := 0
 	allInstrs(f, func(i ssa.Instruction) {
 		st, ok := i.(*ssa.Store)
@@ -963,12 +964,13 @@ func ruleUP4AppKey(w *World, r *Report, prop, rule string) {
 			return
 		}
 		n++
+		// the direction under which the store happens: decided by IsUplink() / IsDownlink() or by the
+		// comparison of the source interface they stand for
 		dir := ""
-		for d, name := range map[string]string{"uplink": "IsUplink", "downlink": "IsDownlink"} {
+		for _, d := range []string{"uplink", "downlink"} {
 			if onlyVia(f, st, func(a, b *ssa.BasicBlock) bool {
 				v, truth, ok := boolEdge(a, b)
-				c, isCall := v.(*ssa.Call)
-				return ok && truth && isCall && staticCallee(c) != nil && staticCallee(c).Name() == name
+				return ok && pdrDirection(v, truth, access, core) == d
 			}) {
 				dir = d
 			}
